@@ -7,19 +7,11 @@
    4. find_cycle_found: if there is a cycle through the seed, FindCycle returns a non-empty answer
       (completeness), hence emptiness of the answer does not depend on the map order.  *)
 From Coq Require Import List ZArith Lia Bool Permutation.
-From Herc Require Import Toposort.Model.
+From Herc Require Import Toposort.Model Toposort.Paths.
 Import ListNotations.
 Open Scope Z_scope.
 
-(* consecutive elements are edges *)
-Inductive is_walk (s : st) : list Z -> Prop :=
-| walk_one a : is_walk s [a]
-| walk_cons a b l : has_edge s a b = true -> is_walk s (b :: l) -> is_walk s (a :: b :: l).
-
-(* non-empty path a ->+ b *)
-Inductive spath (s : st) : Z -> Z -> Prop :=
-| spath_one a b : has_edge s a b = true -> spath s a b
-| spath_cons a b c : has_edge s a b = true -> spath s b c -> spath s a c.
+(* is_walk (consecutive elements are edges) and spath (non-empty path a ->+ b) come from Paths.v *)
 
 (* ---------- 1. cycle_ok ---------- *)
 
@@ -254,53 +246,82 @@ Section Sound.
     eapply anc_path_ok; eassumption.
   Qed.
 
+  Lemma inv_head : forall x p Q V, inv ((x, p) :: Q) V ->
+    p <> nobody /\ has_edge s p x = true /\ exists w, anc V p w /\ (length w < length V)%nat.
+  Proof.
+    intros x p Q V HI. exact (inv_queue _ _ HI (x, p) (or_introl eq_refl)).
+  Qed.
+
+  (* the popped node was visited before: nothing changes *)
+  Lemma inv_seen : forall xp Q V, inv (xp :: Q) V -> inv Q V.
+  Proof.
+    intros xp Q V [Hseed Hvis Hq]. constructor; [exact Hseed | exact Hvis |].
+    intros xp' Hin. apply Hq. right. exact Hin.
+  Qed.
+
+  (* first visit of x (not the seed) *)
+  Lemma inv_fresh : forall x p Q V, inv ((x, p) :: Q) V -> aget V x = None ->
+    inv (Q ++ map (fun c => (c, x)) (ord x (children s x))) (aset V x p).
+  Proof.
+    intros x p Q V HI Hgx. destruct (inv_head x p Q V HI) as [Hp [He [w [Ha Hw]]]].
+    destruct HI as [Hseed Hvis Hq].
+    assert (Hx : x <> seed).
+    { intros Hx. subst x. rewrite Hseed in Hgx. discriminate. }
+    assert (Hsub : forall y q, y <> seed -> aget V y = Some q -> aget (aset V x p) y = Some q).
+    { intros y q _ Hgy. rewrite aget_aset_other; [exact Hgy|]. intros Hxy. subst y. congruence. }
+    assert (Hlen : length (aset V x p) = S (length V)) by (apply length_aset_none; exact Hgx).
+    constructor.
+    - rewrite aget_aset_other by exact Hx. exact Hseed.
+    - intros y q Hgy Hy. destruct (Z.eq_dec x y) as [Hxy|Hxy].
+      + subst y. rewrite aget_aset_same in Hgy. congruence.
+      + rewrite aget_aset_other in Hgy by exact Hxy. eapply Hvis; eassumption.
+    - intros cp Hin. apply in_app_or in Hin. destruct Hin as [Hin|Hin].
+      + eapply q_ok_mono; [exact Hsub | lia |]. apply Hq. right. exact Hin.
+      + apply new_entries in Hin. destruct cp as [c x']. cbn [fst snd] in Hin.
+        destruct Hin as [Hx' [Hec Hxn]]. subst x'. split; [exact Hxn|]. split; [exact Hec|].
+        cbn [fst snd]. exists (x :: w). split.
+        * eapply anc_step; [exact Hx | apply aget_aset_same | exact He |].
+          eapply anc_mono; [exact Hsub | exact Ha].
+        * cbn [length]. lia.
+  Qed.
+
+  (* which of the three cases of the loop body applies *)
+  Lemma inv_cases : forall x p Q V, inv ((x, p) :: Q) V ->
+    (x = seed /\ aget V x = Some nobody) \/
+    (x <> seed /\ aget V x = None) \/
+    (x <> seed /\ exists q, aget V x = Some q /\ q <> nobody).
+  Proof.
+    intros x p Q V [Hseed Hvis _]. destruct (Z.eq_dec x seed) as [Hx|Hx].
+    - left. subst x. split; [reflexivity | exact Hseed].
+    - right. destruct (aget V x) as [q|] eqn:Hgx.
+      + right. split; [exact Hx|]. exists q. split; [reflexivity|]. eapply Hvis; eassumption.
+      + left. split; [exact Hx | reflexivity].
+  Qed.
+
   Lemma bfs_sound : forall fuel Q V, inv Q V ->
     bfs ord fuel s seed Q V <> [] -> cycle_ok s seed (bfs ord fuel s seed Q V) = true.
   Proof.
     induction fuel as [|f IH]; intros Q V HI Hne.
     - cbn [bfs] in Hne. contradiction.
     - destruct Q as [|[x p] Q']; [cbn [bfs] in Hne; contradiction|].
-      destruct HI as [Hseed Hvis Hq].
-      destruct (Hq (x, p) (or_introl eq_refl)) as [Hp [He [w [Ha Hw]]]]. cbn [fst snd] in Hp, He, Ha.
+      destruct (inv_head x p Q' V HI) as [Hp [He [w [Ha Hw]]]].
       rewrite bfs_step in Hne |- *. cbv zeta in Hne |- *.
       destruct (Z.eqb_spec p nobody) as [Hpn|_]; [contradiction|]. cbn [negb] in Hne |- *.
       rewrite andb_true_r in Hne |- *.
-      destruct (aget V x) as [q|] eqn:Hgx.
-      + destruct (Z.eqb_spec q nobody) as [Hqn|Hqn].
-        * (* the seed is reached again *)
-          subst q. assert (Hx : x = seed).
-          { destruct (Z.eq_dec x seed) as [Hx|Hx]; [exact Hx|]. exfalso. exact (Hvis x nobody Hgx Hx eq_refl). }
-          subst x. rewrite Z.eqb_refl.
-          apply (returned_ok (aset V seed p) p w).
-          -- eapply anc_mono; [|exact Ha]. intros y q Hy Hgy. rewrite aget_aset_other by congruence. exact Hgy.
-          -- rewrite (length_aset_some _ V seed p nobody Hseed). exact Hw.
-          -- exact He.
-        * (* already visited *)
-          assert (Hx : x <> seed).
-          { intros Hx. subst x. rewrite Hseed in Hgx. congruence. }
-          destruct (Z.eqb_spec x seed) as [Hx'|_]; [contradiction|].
-          apply IH; [|exact Hne]. constructor; [exact Hseed | exact Hvis |].
-          intros xp Hin. apply Hq. right. exact Hin.
+      destruct (inv_cases x p Q' V HI) as [[Hx Hgx] | [[Hx Hgx] | [Hx [q [Hgx Hq]]]]]; rewrite Hgx in Hne |- *.
+      + (* the seed is reached again *)
+        subst x. rewrite Z.eqb_refl. change (nobody =? nobody) with true. cbv iota.
+        apply (returned_ok (aset V seed p) p w).
+        * eapply anc_mono; [|exact Ha]. intros y q Hy Hgy. rewrite aget_aset_other by congruence. exact Hgy.
+        * rewrite (length_aset_some _ V seed p nobody Hgx). exact Hw.
+        * exact He.
       + (* first visit of x *)
-        assert (Hx : x <> seed).
-        { intros Hx. subst x. rewrite Hseed in Hgx. discriminate. }
         destruct (Z.eqb_spec x seed) as [Hx'|_]; [contradiction|].
-        assert (Hsub : forall y q, y <> seed -> aget V y = Some q -> aget (aset V x p) y = Some q).
-        { intros y q _ Hgy. rewrite aget_aset_other; [exact Hgy|]. intros Hxy. subst y. congruence. }
-        assert (Hlen : length (aset V x p) = S (length V)) by (apply length_aset_none; exact Hgx).
-        apply IH; [|exact Hne]. constructor.
-        * rewrite aget_aset_other by exact Hx. exact Hseed.
-        * intros y q Hgy Hy. destruct (Z.eq_dec x y) as [Hxy|Hxy].
-          -- subst y. rewrite aget_aset_same in Hgy. congruence.
-          -- rewrite aget_aset_other in Hgy by exact Hxy. eapply Hvis; eassumption.
-        * intros cp Hin. apply in_app_or in Hin. destruct Hin as [Hin|Hin].
-          -- eapply q_ok_mono; [exact Hsub | lia |]. apply Hq. right. exact Hin.
-          -- apply new_entries in Hin. destruct cp as [c x']. cbn [fst snd] in Hin.
-             destruct Hin as [Hx' [Hec Hxn]]. subst x'. split; [exact Hxn|]. split; [exact Hec|].
-             cbn [fst snd]. exists (x :: w). split.
-             ++ eapply anc_step; [exact Hx | apply aget_aset_same | exact He |].
-                eapply anc_mono; [exact Hsub | exact Ha].
-             ++ cbn [length]. lia.
+        apply IH; [|exact Hne]. apply inv_fresh; assumption.
+      + (* already visited *)
+        destruct (Z.eqb_spec x seed) as [Hx'|_]; [contradiction|].
+        destruct (Z.eqb_spec q nobody) as [Hq'|_]; [contradiction|].
+        apply IH; [|exact Hne]. eapply inv_seen. exact HI.
   Qed.
 
   (* after the first step *)
@@ -351,8 +372,241 @@ Proof.
   intros ord Hord. apply find_cycle_real. apply perm_incl. exact Hord.
 Qed.
 
+(* ---------- 4. completeness ---------- *)
+
+(* number of children of x in the table o *)
+Definition clen (o : list (Z * list (Z * Z))) (x : Z) : nat :=
+  match aget o x with Some m => length m | None => O end.
+
+(* total size of the child tables of the nodes that are not visited yet *)
+Fixpoint unvis (V : list (Z * Z)) (o : list (Z * list (Z * Z))) : nat :=
+  match o with
+  | [] => O
+  | (n, m) :: r => ((match aget V n with Some _ => O | None => length m end) + unvis V r)%nat
+  end.
+
+Lemma children_length : forall s x, length (children s x) = clen (outs s) x.
+Proof.
+  intros s x. unfold children, clen. destruct (aget (outs s) x) as [m|]; [apply map_length | reflexivity].
+Qed.
+
+Lemma unvis_nil : forall s, unvis [] (outs s) = edge_count s.
+Proof.
+  intros s. unfold edge_count. induction (outs s) as [|[n m] r IH]; cbn [unvis fold_right aget snd].
+  - reflexivity.
+  - rewrite IH. reflexivity.
+Qed.
+
+Lemma unvis_aset_le : forall V x p o, (unvis (aset V x p) o <= unvis V o)%nat.
+Proof.
+  intros V x p o. induction o as [|[n m] r IH]; cbn [unvis].
+  - lia.
+  - destruct (Z.eq_dec x n) as [Hxn|Hxn].
+    + subst n. rewrite aget_aset_same. destruct (aget V x); lia.
+    + rewrite aget_aset_other by exact Hxn. lia.
+Qed.
+
+Lemma unvis_aset : forall V x p o, aget V x = None ->
+  (unvis (aset V x p) o + clen o x <= unvis V o)%nat.
+Proof.
+  intros V x p o Hgx. unfold clen. induction o as [|[n m] r IH]; cbn [unvis aget].
+  - lia.
+  - destruct (Z.eqb_spec n x) as [Hnx|Hnx].
+    + subst n. rewrite aget_aset_same. rewrite Hgx. pose proof (unvis_aset_le V x p r) as Hle. lia.
+    + rewrite aget_aset_other by congruence. lia.
+Qed.
+
+Lemma rev_snoc_not_nil : forall (l : list Z) a, rev (l ++ [a]) <> [].
+Proof.
+  intros l a. rewrite rev_app_distr. cbn [rev app]. discriminate.
+Qed.
+
+Section Complete.
+  Variable ord : Z -> list Z -> list Z.
+  Hypothesis ord_perm : forall n l, Permutation (ord n l) l.
+  Variable s : st.
+  Variable seed : Z.
+  Hypothesis nobody_not_node : is_node s nobody = false.
+
+  Let ord_incl : forall n l, incl (ord n l) l := perm_incl ord ord_perm.
+
+  (* every child of a visited node is a visited non-seed node or waits in the queue *)
+  Definition closed (Q V : list (Z * Z)) : Prop :=
+    forall x c, aget V x <> None -> has_edge s x c = true ->
+      (c <> seed /\ aget V c <> None) \/ exists p, In (c, p) Q.
+
+  Lemma in_new_entries : forall x c, has_edge s x c = true ->
+    In (c, x) (map (fun c => (c, x)) (ord x (children s x))).
+  Proof.
+    intros x c He. apply in_map_iff. exists c. split; [reflexivity|].
+    eapply Permutation_in; [apply Permutation_sym; apply ord_perm|]. apply children_edge. exact He.
+  Qed.
+
+  Lemma new_entries_length : forall x,
+    length (map (fun c => (c, x)) (ord x (children s x))) = clen (outs s) x.
+  Proof.
+    intros x. rewrite map_length. rewrite (Permutation_length (ord_perm x (children s x))).
+    apply children_length.
+  Qed.
+
+  Lemma closed_seen : forall x p q Q V, x <> seed -> aget V x = Some q ->
+    closed ((x, p) :: Q) V -> closed Q V.
+  Proof.
+    intros x p q Q V Hx Hgx Hc y c Hy He. destruct (Hc y c Hy He) as [Hl | [p' [Heq | Hin]]].
+    - left. exact Hl.
+    - injection Heq as Hxc Hpp. subst c. left. split; [exact Hx | congruence].
+    - right. exists p'. exact Hin.
+  Qed.
+
+  Lemma closed_fresh : forall x p Q V, x <> seed -> aget V x = None ->
+    closed ((x, p) :: Q) V ->
+    closed (Q ++ map (fun c => (c, x)) (ord x (children s x))) (aset V x p).
+  Proof.
+    intros x p Q V Hx Hgx Hc y c Hy He.
+    assert (Hmono : forall z, aget V z <> None -> aget (aset V x p) z <> None).
+    { intros z Hz. rewrite aget_aset_other; [exact Hz|]. intros Hxz. subst z. contradiction. }
+    destruct (Z.eq_dec x y) as [Hxy|Hxy].
+    - subst y. right. exists x. apply in_or_app. right. apply in_new_entries. exact He.
+    - rewrite aget_aset_other in Hy by exact Hxy.
+      destruct (Hc y c Hy He) as [[Hcs Hgc] | [p' [Heq | Hin]]].
+      + left. split; [exact Hcs | apply Hmono; exact Hgc].
+      + injection Heq as Hxc Hpp. subst c. left. split; [exact Hx|]. rewrite aget_aset_same. discriminate.
+      + right. exists p'. apply in_or_app. left. exact Hin.
+  Qed.
+
+  (* when the queue is empty no path from a visited node reaches the seed *)
+  Lemma closed_nil_no_path : forall V, closed [] V ->
+    forall a b, spath s a b -> aget V a <> None -> b <> seed.
+  Proof.
+    intros V Hc a b Hp. induction Hp as [a b He | a b c He Hp IH]; intros Ha.
+    - destruct (Hc a b Ha He) as [[Hb _] | [p []]]. exact Hb.
+    - destruct (Hc a b Ha He) as [[_ Hb] | [p []]]. apply IH. exact Hb.
+  Qed.
+
+  Lemma bfs_complete : forall fuel Q V,
+    inv s seed Q V -> closed Q V -> (length Q + unvis V (outs s) <= fuel)%nat ->
+    spath s seed seed -> bfs ord fuel s seed Q V <> [].
+  Proof.
+    induction fuel as [|f IH]; intros Q V HI Hc Hmu Hp.
+    - exfalso. destruct Q as [|xp Q']; [|cbn [length] in Hmu; lia].
+      apply (closed_nil_no_path V Hc seed seed Hp); [|reflexivity].
+      rewrite (inv_seed s seed _ _ HI). discriminate.
+    - destruct Q as [|[x p] Q'].
+      + exfalso. apply (closed_nil_no_path V Hc seed seed Hp); [|reflexivity].
+        rewrite (inv_seed s seed _ _ HI). discriminate.
+      + destruct (inv_head s seed x p Q' V HI) as [Hpn _].
+        rewrite bfs_step. cbv zeta.
+        destruct (Z.eqb_spec p nobody) as [Hpn'|_]; [contradiction|]. cbn [negb]. rewrite andb_true_r.
+        cbn [length] in Hmu.
+        destruct (inv_cases s seed x p Q' V HI) as [[Hx Hgx] | [[Hx Hgx] | [Hx [q [Hgx Hq]]]]]; rewrite Hgx.
+        * subst x. rewrite Z.eqb_refl. apply rev_snoc_not_nil.
+        * destruct (Z.eqb_spec x seed) as [Hx'|_]; [contradiction|].
+          apply IH; [| |  | exact Hp].
+          -- apply (inv_fresh ord ord_incl s seed nobody_not_node); assumption.
+          -- apply closed_fresh; assumption.
+          -- rewrite app_length. rewrite new_entries_length.
+             pose proof (unvis_aset V x p (outs s) Hgx) as Hle. lia.
+        * destruct (Z.eqb_spec x seed) as [Hx'|_]; [contradiction|].
+          destruct (Z.eqb_spec q nobody) as [Hq'|_]; [contradiction|].
+          apply IH; [| | | exact Hp].
+          -- eapply inv_seen. exact HI.
+          -- eapply closed_seen; eassumption.
+          -- lia.
+  Qed.
+
+  Lemma closed_init : closed (map (fun c => (c, seed)) (ord seed (children s seed))) [(seed, nobody)].
+  Proof.
+    intros x c Hx He. right. exists seed. cbn [aget] in Hx.
+    destruct (Z.eqb_spec seed x) as [Hsx|_]; [|contradiction]. subst x.
+    apply in_new_entries. exact He.
+  Qed.
+
+  Lemma measure_init :
+    (length (map (fun c => (c, seed)) (ord seed (children s seed))) + unvis [(seed, nobody)] (outs s)
+     <= S (2 * edge_count s))%nat.
+  Proof.
+    rewrite new_entries_length.
+    pose proof (unvis_aset [] seed nobody (outs s) eq_refl) as Hle. cbn [aset] in Hle.
+    rewrite unvis_nil in Hle. lia.
+  Qed.
+
+  Lemma find_cycle_found_sec : spath s seed seed -> find_cycle ord s seed <> [].
+  Proof.
+    intros Hp. rewrite find_cycle_unfold. apply bfs_complete.
+    - apply (inv_init ord ord_incl s seed nobody_not_node).
+    - apply closed_init.
+    - apply measure_init.
+    - exact Hp.
+  Qed.
+End Complete.
+
+(* the NoDup hypothesis is part of the domain (wfb) but is not needed: aget and has_edge only see
+   the first entry of a key, and shadowed entries only make the fuel bound more generous *)
+Theorem find_cycle_found : forall ord, (forall n l, Permutation (ord n l) l) ->
+  forall s seed, NoDup (map fst (outs s)) -> is_node s nobody = false ->
+  spath s seed seed -> find_cycle ord s seed <> [].
+Proof.
+  intros ord Hord s seed _ Hn Hp. apply find_cycle_found_sec; assumption.
+Qed.
+
+(* a non-empty answer witnesses a cycle through the seed *)
+Lemma find_cycle_nonempty_spath : forall ord, (forall n l, Permutation (ord n l) l) ->
+  forall s seed, is_node s nobody = false ->
+  find_cycle ord s seed <> [] -> spath s seed seed.
+Proof.
+  intros ord Hord s seed Hn Hne.
+  pose proof (find_cycle_real_perm ord Hord s seed Hn Hne) as Hok.
+  apply cycle_ok_spec in Hok. destruct Hok as [r [_ Hw]].
+  eapply is_walk_spath. exact Hw.
+Qed.
+
+Theorem find_cycle_nonempty_iff : forall ord, (forall n l, Permutation (ord n l) l) ->
+  forall s seed, NoDup (map fst (outs s)) -> is_node s nobody = false ->
+  (find_cycle ord s seed <> [] <-> spath s seed seed).
+Proof.
+  intros ord Hord s seed Hnd Hn. split.
+  - apply find_cycle_nonempty_spath; assumption.
+  - apply find_cycle_found; assumption.
+Qed.
+
+Theorem find_cycle_empty_indep : forall ord1 ord2,
+  (forall n l, Permutation (ord1 n l) l) -> (forall n l, Permutation (ord2 n l) l) ->
+  forall s seed, NoDup (map fst (outs s)) -> is_node s nobody = false ->
+  (find_cycle ord1 s seed = [] <-> find_cycle ord2 s seed = []).
+Proof.
+  assert (Hhalf : forall ord1 ord2,
+    (forall n l, Permutation (ord1 n l) l) -> (forall n l, Permutation (ord2 n l) l) ->
+    forall s seed, NoDup (map fst (outs s)) -> is_node s nobody = false ->
+    find_cycle ord1 s seed = [] -> find_cycle ord2 s seed = []).
+  { intros ord1 ord2 H1 H2 s seed Hnd Hn He1.
+    destruct (find_cycle ord2 s seed) as [|y r] eqn:He2; [reflexivity|]. exfalso.
+    assert (Hne2 : find_cycle ord2 s seed <> []) by (rewrite He2; discriminate).
+    apply (find_cycle_found ord1 H1 s seed Hnd Hn); [|exact He1].
+    apply (find_cycle_nonempty_spath ord2 H2 s seed Hn Hne2). }
+  intros ord1 ord2 H1 H2 s seed Hnd Hn. split; apply Hhalf; assumption.
+Qed.
+
+(* the hypotheses are satisfiable on a concrete graph  1 -> 2 -> 3 -> 1, 3 -> 4 *)
+Definition ex_graph : st :=
+  mkSt [(1, [(2, 1)]); (2, [(3, 1)]); (3, [(4, 1); (1, 2)]); (4, [])] [(1, 1); (2, 1); (3, 1); (4, 1)].
+
+Example ex_graph_cycle :
+  is_node ex_graph nobody = false /\ NoDup (map fst (outs ex_graph)) /\ spath ex_graph 1 1 /\
+  find_cycle id_ord ex_graph 1 = [1; 2; 3] /\ find_cycle (fun _ l => rev l) ex_graph 1 = [1; 2; 3] /\
+  find_cycle id_ord ex_graph 4 = [].
+Proof.
+  split; [reflexivity|]. split.
+  - cbn [ex_graph outs map fst]. repeat constructor; cbn [In]; intros H; intuition discriminate.
+  - split; [|split; [|split]]; try (vm_compute; reflexivity).
+    apply (spath_cons _ 1 2 1); [reflexivity|]. apply (spath_cons _ 2 3 1); [reflexivity|].
+    apply spath_one. reflexivity.
+Qed.
+
 Print Assumptions cycle_ok_spec.
 Print Assumptions is_walk_spath.
 Print Assumptions spath_is_walk.
 Print Assumptions find_cycle_real.
 Print Assumptions find_cycle_real_perm.
+Print Assumptions find_cycle_found.
+Print Assumptions find_cycle_nonempty_iff.
+Print Assumptions find_cycle_empty_indep.
